@@ -147,3 +147,130 @@ theorem toNumberB_showInt {n : Int} (hlo : i64min ≤ n) (hhi : n ≤ i64max) :
     simp only [toNumberB, hrp, hfs, hn]
 
 end KotoVerif.Str
+
+namespace KotoVerif.Str
+open KotoVerif.Utf8 KotoVerif.FmtSpec
+
+/-- leading zeroes do not change the value -/
+theorem digitsVal_zeros (k : Nat) (ds : Bytes) : digitsVal 10 (List.replicate k 48 ++ ds) 0 = digitsVal 10 ds 0 := by
+  induction k with
+  | zero => rfl
+  | succ k ih =>
+    simp only [List.replicate_succ, List.cons_append, digitsVal]
+    have : digitVal 10 48 = some 0 := by decide
+    rw [this]
+    simpa using ih
+
+/-- a non-empty all-digit text parses (radix 10) to the value of its digits -/
+theorem fromStrRadix_digits {ds : Bytes} (hne : ds ≠ []) (hd : ∀ b ∈ ds, 48 ≤ b ∧ b ≤ 57) {m : Nat}
+    (hv : digitsVal 10 ds 0 = some m) (hm : (m : Int) ≤ i64max) : fromStrRadix 10 ds = some (m : Int) := by
+  cases ds with
+  | nil => exact absurd rfl hne
+  | cons c r =>
+    have hc := hd c (by simp)
+    cases r with
+    | nil =>
+      simp only [fromStrRadix]
+      split
+      · rename_i heq; cases heq
+      · rename_i heq; simp only [List.cons.injEq, and_true] at heq; omega
+      · rename_i heq; simp only [List.cons.injEq, and_true] at heq; omega
+      · rename_i heq; simp only [List.cons.injEq] at heq; omega
+      · rename_i heq; simp only [List.cons.injEq] at heq; omega
+      · rw [hv]; simp [hm]
+    | cons c2 r2 =>
+      simp only [fromStrRadix]
+      split
+      · rename_i heq; cases heq
+      · rename_i heq; cases heq
+      · rename_i heq; cases heq
+      · rename_i heq; simp only [List.cons.injEq] at heq; omega
+      · rename_i heq; simp only [List.cons.injEq] at heq; omega
+      · rw [hv]; simp [hm]
+
+theorem radixPrefix_digits {ds : Bytes} (hd : ∀ b ∈ ds, 48 ≤ b ∧ b ≤ 57) : radixPrefix ds = none := by
+  unfold radixPrefix
+  split
+  · have := hd 120 (by simp); omega
+  · have := hd 111 (by simp); omega
+  · have := hd 98 (by simp); omega
+  · rfl
+
+/-- a number padded by the `0` flag (zeroes directly in front of its digits) is the fill followed by the text -/
+theorem pad_zero_form (g : Bytes → Nat) (r : Bytes) (mw : Option Nat) (c : Bool) :
+    ∃ k, pad g true r (some { minWidth := mw, fill := some [48] }) c = List.replicate k 48 ++ r := by
+  simp only [pad, Option.getD_some]
+  split
+  · refine ⟨mw.getD 0 - (Utf8.graphemes g r).length, ?_⟩
+    simp [fillCounts, rep_]
+  · exact ⟨0, rfl⟩
+
+/-- **with the sign-aware `0` flag a zero-padded integer is still that integer**: `'{n:0w}'.to_number() = n` for
+every `i64` and every width, whatever the segmentation oracle -/
+theorem toNumberB_zero_flag (g : Bytes → Nat) {n : Int} (hlo : i64min ≤ n) (hhi : n ≤ i64max) (w : Nat) (c : Bool) :
+    toNumberB (applyFmtSign g (.int n) (some { minWidth := some w, fill := some [48] }) c) = .int n := by
+  have hrender : render g (.int n) (some { minWidth := some w, fill := some [48] }) = showInt n := by
+    simp [render]
+  by_cases hneg : n < 0
+  · have hlt : n.natAbs < 10 ^ 70 := by
+      have : n.natAbs ≤ 9223372036854775808 := by simp only [i64min] at hlo; omega
+      have := pow10_70_big; omega
+    have hd := digitsVal_natDigits (base := 10) (by omega) (by omega) 70 n.natAbs hlt
+    have hsi : showInt n = 45 :: showDec n.natAbs := by simp [showInt, hneg]
+    obtain ⟨k, hk⟩ := pad_zero_form g (showDec n.natAbs) (some (w - 1)) c
+    have happ : applyFmtSign g (.int n) (some { minWidth := some w, fill := some [48] }) c
+        = 45 :: (List.replicate k 48 ++ showDec n.natAbs) := by
+      simp only [applyFmtSign, hrender, hsi, isNumber, List.head?_cons, List.drop_succ_cons, List.drop_zero,
+        Option.map_some, true_and, and_self, if_true]
+      rw [← hk]
+    rw [happ]
+    have hne := natDigits_ne_nil 10 false 69 n.natAbs
+    have hdv : digitsVal 10 (List.replicate k 48 ++ showDec n.natAbs) 0 = some n.natAbs := by
+      rw [digitsVal_zeros]; exact hd
+    cases hds : List.replicate k 48 ++ showDec n.natAbs with
+    | nil =>
+      have : showDec n.natAbs = [] := (List.append_eq_nil_iff.mp hds).2
+      exact absurd this hne
+    | cons c0 r0 =>
+      rw [hds] at hdv
+      have hrp : radixPrefix (45 :: c0 :: r0) = none := rfl
+      simp only [toNumberB, hrp, fromStrRadix, hdv, Option.bind_some]
+      have : -(n.natAbs : Int) ≥ i64min := by omega
+      simp only [this, if_true]
+      congr 1; omega
+  · have hn : ((n.toNat : Nat) : Int) = n := by omega
+    have hsi : showInt n = showDec n.toNat := by simp [showInt, hneg]
+    have hdig := natDigits10_digits 70 n.toNat
+    have hne := natDigits_ne_nil 10 false 69 n.toNat
+    have hlt : n.toNat < 10 ^ 70 := by
+      have : n.toNat ≤ 9223372036854775807 := by simp only [i64max] at hhi; omega
+      have := pow10_70_big; omega
+    have hd := digitsVal_natDigits (base := 10) (by omega) (by omega) 70 n.toNat hlt
+    obtain ⟨k, hk⟩ := pad_zero_form g (showDec n.toNat) (some w) c
+    have hhead : (showDec n.toNat).head? ≠ some 45 := by
+      intro h
+      cases hs : showDec n.toNat with
+      | nil => rw [hs] at h; cases h
+      | cons c0 r0 =>
+        rw [hs] at h
+        simp only [List.head?_cons, Option.some.injEq] at h
+        have := hdig c0 (by simp only [showDec, showNat] at hs; rw [hs]; simp)
+        omega
+    have happ : applyFmtSign g (.int n) (some { minWidth := some w, fill := some [48] }) c
+        = List.replicate k 48 ++ showDec n.toNat := by
+      simp only [applyFmtSign, hrender, hsi, isNumber, hhead, and_false, if_false]
+      exact hk
+    rw [happ]
+    have hall : ∀ b ∈ List.replicate k 48 ++ showDec n.toNat, 48 ≤ b ∧ b ≤ 57 := by
+      intro b hb
+      rcases List.mem_append.mp hb with hb | hb
+      · have := (List.mem_replicate.mp hb).2; omega
+      · exact hdig b hb
+    have hnn : List.replicate k 48 ++ showDec n.toNat ≠ [] := by
+      intro h; exact hne (List.append_eq_nil_iff.mp h).2
+    have hdv : digitsVal 10 (List.replicate k 48 ++ showDec n.toNat) 0 = some n.toNat := by
+      rw [digitsVal_zeros]; exact hd
+    have hfs := fromStrRadix_digits hnn hall hdv (by omega)
+    simp only [toNumberB, radixPrefix_digits hall, hfs, hn]
+
+end KotoVerif.Str
